@@ -182,6 +182,13 @@ func c10Run(c c10Case) Verdict {
 				if rp.Class() != 5 {
 					return fail(failf("remembered-greeting", "MAIL before a new greeting inside TLS answered %s: the plaintext greeting is remembered", rp))
 				}
+			} else if txn {
+				// a second MAIL inside an open transaction: refused (503) or
+				// accepted (with or without the TLS-side recipients so far),
+				// all are answers
+				if rp.Class() != 2 && rp.Class() != 5 {
+					return fail(failf("probe-reply", "second MAIL inside a TLS-side transaction answered %s", rp))
+				}
 			} else if rp.Code != 250 {
 				return fail(failf("probe-reply", "MAIL inside TLS answered %s", rp))
 			} else {
@@ -237,6 +244,13 @@ func c10Run(c c10Case) Verdict {
 			case authed:
 				if rp.Code != 503 {
 					return fail(failf("probe-reply", "second AUTH inside TLS answered %s", rp))
+				}
+			case txn:
+				// AUTH inside a mail transaction may be refused (RFC 4954: 503)
+				if rp.Code == 235 {
+					authed = true
+				} else if rp.Class() != 5 {
+					return fail(failf("probe-reply", "AUTH inside a TLS-side transaction answered %s", rp))
 				}
 			default:
 				if rp.Code != 235 {
